@@ -44,7 +44,7 @@ static int ref_pred(const int *g, int c, const int *p, int f, int *pc, int *pp, 
 static int ref_is_ctl(int c, int f) { (void)c; (void)f; return 0; }
 /* OUT side, final write-back (which: 1 = descB):
  *   A -> (k < NT) ? task : descB(k,0)        B -> (k == NT) ? descB(k,1) : task       C -> descB(k,2)
- *   D -> (k % 2 == 0) ? descB(k,3)           E -> (k % 3 == 0) ? descB(k,4) : descB(k+1,5) */
+ *   D -> (k % 2 == 0) ? descB(k,3)           E -> (k % 3 == 0) ? descB(k,4)   -> (k % 3 != 0) ? descB(k+1,5) */
 static int ref_final_write(const int *g, int c, const int *p, int f, int *co, int *which)
 {
     (void)c; *which = 1; co[0] = p[0];
